@@ -95,6 +95,20 @@ class C08(Spec):
             fanout_broken = ("fanouts_disjoint / fanouts_understood (gen/FanOut.v) no longer check; fan-outs whose goroutines conflict: %s; %s"
                              % (", ".join(badf) or "none (a construct was not understood)", qf.stdout[-600:].replace("\n", " ")))
             log("C08:", fanout_broken)
+        # ---- (1c) self-test of the fan-out translator: known disjoint and known racy patterns must get their verdicts
+        selfsrc = os.path.join(scratch.work, "fanout_cases.go")
+        shutil.copy(os.path.join(VERIF, "tools", "xlate", "testdata", "fanout_cases.go.txt"), selfsrc)
+        selfv = os.path.join(scratch.work, "FanSelf.v")
+        ps = subprocess.run([xl, "-fanout", selfv, selfsrc], stdout=subprocess.PIPE, stderr=subprocess.STDOUT, text=True)
+        snames = ps.stdout.split()
+        qs = subprocess.run(["timeout", "300", "coqc", "-R", os.path.join(COQ, "theories"), "Servitor", "-R", os.path.join(COQ, "facts"), "Servitor.Facts", selfv],
+                            cwd=scratch.work, stdout=subprocess.PIPE, stderr=subprocess.STDOUT, text=True)
+        ms = re.search(r"=\s*\[([^\]]*)\]", qs.stdout)
+        sverd = [v.strip() == "true" for v in ms.group(1).split(";")] if ms else []
+        wrong = [n for n, v in zip(snames, sverd) if ("_OK_" in n) != v]
+        report.extra["translator_selftest"] = {"patterns": len(snames), "wrong": wrong}
+        if ps.returncode != 0 or len(snames) < 9 or len(sverd) != len(snames) or wrong:
+            raise Broken("correspondence", "self-test of tools/xlate -fanout failed: wrong verdicts for %s" % (wrong or "the whole file"), (ps.stdout + qs.stdout)[-1500:])
         # ---- (2) observation
         tooldir = os.path.join(scratch.dir, "hookbin")
         os.makedirs(tooldir, exist_ok=True)
